@@ -46,7 +46,9 @@ TSpec == TInit /\ [][TNext]_tvars
 
 TraceProp == RxExactlyOnceInOrder /\ TxExactlyOnceInOrder /\ TogglesBinary /\ AddressRange
 
-Progress == TLCSet(tid, <<l - 1, IF TraceProp THEN status ELSE "prop_invariant">>)
+\* a clause failure keeps its name; an invariant failure stops the trace there (it is not followed further)
+Verdict == IF status # "ok" THEN status ELSE IF TraceProp THEN "ok" ELSE "prop_invariant"
+Progress == TLCSet(tid, <<l - 1, Verdict>>) /\ Verdict = "ok"
 
 Verdicts == JsonSerialize(IOEnv.VERDICT_FILE, [i \in 1..Len(Logs) |-> TLCGet(i)])
 =============================================================================
